@@ -33,6 +33,8 @@ def values():
         [], ["a"], ["a", "b"], ["a", "b", "c"], ["a", "b", "c", "d"], {"k": 1},
         "2024-01-15", "2024-02-29", "2023-02-29", "2024-02-30", "2024-13-01", "2024-00-10", "0000-01-01", "2024-1-5", "20240115", "2024-01-15T10:00:00Z", "2024-01-15T10:00:00+02:00",
         "2024-01-15T25:00:00", "2024-01-15\n", "x\x00y", "/tmp/dir", LiteralZoneValue(content="raw"),
+        # literal zones whose CONTENT would satisfy a string-shaped member: a zone is an opaque block, not that string
+        LiteralZoneValue(content="2024-01-15"), LiteralZoneValue(content="ACT"), LiteralZoneValue(content="ACTIVE"), LiteralZoneValue(content="abc"), LiteralZoneValue(content="AB"), LiteralZoneValue(content="2024-01-15T10:00:00Z"), LiteralZoneValue(content="5"), LiteralZoneValue(content=""),
     ]
 
 
@@ -43,6 +45,8 @@ def _is_num(v):
 def ref_member(m: tuple, v) -> bool | None:
     """True accept / False reject / None free, from the property text."""
     k = m[0]
+    if type(v).__name__ == "LiteralZoneValue" and k in ("ENUM", "REGEX", "DATE", "ISO", "CONST", "RANGE"):
+        return False  # the documented meanings are about strings / numbers: a fenced block is neither, whatever it contains
     scalar = isinstance(v, (str, int, float, bool)) or v is None
     if k == "REQ":
         if v is None or v == "":
